@@ -50,7 +50,7 @@ def descriptor_text(kind, seeds, branch):
             "wsh-miniscript": f"wsh(and_v(v:pk({ke[0]}),or_d(pk({ke[1]}),older(5))))"}[kind]
 
 
-def pipeline(inputs, hash_type, lock_time, tamper, signers_used):
+def pipeline(inputs, hash_type, lock_time, tamper, signers_used, version=0):
     """inputs: list of (kind, seeds, branch, index, sequence).  Returns (accepted, tampered verdict or
     None when the alteration is one the hash type does not commit to)"""
     descs, prevouts, prev_txs = [], [], []
@@ -76,18 +76,34 @@ def pipeline(inputs, hash_type, lock_time, tamper, signers_used):
         ht = hash_type if taproot else (hash_type or 1)
         psbt.inputs[k].sig_hash_type = ht if ht else None
         psbt = d.update_psbt_input(psbt, k, inputs[k][3])
+    if version == 2:
+        psbt = psbt.to_v2()
     used = set()
     for k, (kind, seeds, branch, index, sequence) in enumerate(inputs):
         order = list(range(len(seeds)))
-        pick = order if signers_used == "all" else (order[:2] if kind != "tr-tree" else order)
+        if signers_used == "all":
+            pick = order
+        elif signers_used == "leaves" and kind in ("tr-tree", "tr-multi_a"):
+            # the internal key does not sign: a script path is the only spend; one leaf of the tree
+            # (finalize refuses to choose between two signed leaves), both keys of the multi_a leaf
+            pick = order[1:2] if kind == "tr-tree" else order[1:]
+        else:
+            pick = order[:2] if kind not in ("tr-tree", "tr-multi_a") else order
         for j in pick:
             used.add(seeds[j])
     for s in sorted(used):
         master = bip32_ref.master(bytes([s]) * 32, XPRV_VER)
         signer = SoftwareSigner(check_encode(bip32_ref.serialize(master)))
         psbt, _ = psbt_mod.sign(psbt, signer)
-    # a miniscript witness script is the caller's to solve: the library's own solver is handed over, as its documentation says
-    final = psbt_mod.extract_tx(psbt_mod.finalize(psbt, solver=D.miniscript_solver))
+    # a miniscript witness script and a taproot leaf that is not a single-key one are the caller's
+    # to solve, as finalize's documentation says: the library's own miniscript solver for the
+    # first, and for the second the descriptor's own `satisfy` over the signatures the psbt holds
+    def solver(p, vin_i):
+        if inputs[vin_i][0] == "tr-multi_a" and not p.inputs[vin_i].taproot_key_spend_signature:
+            sigs = {key[:32]: sig for key, sig in p.inputs[vin_i].taproot_script_spend_signatures.items()}
+            return descs[vin_i].satisfy(sigs, inputs[vin_i][3])
+        return D.miniscript_solver(p, vin_i)
+    final = psbt_mod.extract_tx(psbt_mod.finalize(psbt, solver=solver))
     try:
         verify_transaction(prevouts, final)
         accepted = True
@@ -139,11 +155,12 @@ def _gen_pipeline(rng):
         seq = rng.choice([0xFFFFFFFF, 0xFFFFFFFE, 5, 6]) if kind != "wsh-miniscript" else rng.choice([5, 6, 0xFFFFFFFE])
         inputs.append((kind, [rng.randrange(1, 120) for _ in range(3)], rng.choice([0, 1]), rng.choice([0, 1, 7, 2**31 - 1]), seq))
     return dict(inputs=inputs, hash_type=rng.choice([0, 1, 1, 2, 3, 0x81, 0x82, 0x83]), lock_time=rng.choice([0, 500000]),
-                tamper=rng.choice(["amount-out", "sequence", "lock-time", "spent-amount", "script-out"]), signers_used=rng.choice(["all", "quorum"]))
+                tamper=rng.choice(["amount-out", "sequence", "lock-time", "spent-amount", "script-out"]), signers_used=rng.choice(["all", "quorum", "leaves"]),
+                version=rng.choice([0, 0, 2]))
 
 
-@contract("contracts.c_pipeline.pipeline", gen=_gen_pipeline, props="C10", n_quick=120, n_thorough=3000,
-          rule="1..3 inputs drawn from pkh, wpkh, sh(wpkh), wsh/sh/sh-wsh multi 2-of-3, sortedmulti, tr key path, tr with a two-leaf tree, tr with a multi_a leaf, wsh miniscript; account xpubs with origins from the independent BIP32 reference, branches 0/1, indexes 0, 1, 7, 2^31-1; every hash type; psbt v0; all signers or a quorum; one alteration of an output amount, an output script, a sequence, the lock time or the spent amount")
+@contract("contracts.c_pipeline.pipeline", gen=_gen_pipeline, props="C10", n_quick=150, n_thorough=1500,
+          rule="1..3 inputs drawn from pkh, wpkh, sh(wpkh), wsh/sh/sh-wsh multi 2-of-3, sortedmulti, tr key path, tr with a two-leaf tree, tr with a multi_a leaf, wsh miniscript; account xpubs with origins from the independent BIP32 reference, branches 0/1, indexes 0, 1, 7, 2^31-1; every hash type; psbt v0 and (converted before signing) v2; all signers, a quorum, or the leaf keys alone (script path); one alteration of an output amount, an output script, a sequence, the lock time or the spent amount")
 class PipelineBounded:
     """what the library builds, updates, signs, finalizes and extracts, its engine accepts under
     the standard flags; the same transaction with a field altered that the hash type commits to
